@@ -41,6 +41,32 @@ CHECKS["C01"] = cfg(
                  "ed25519/p256/k256 crates called directly are the reference for signature validity"],
 )
 
+CHECKS["C08"] = cfg(
+    "C08",
+    technique="runtime monitoring: produce tokens with the real encoders / create_jws, dissect them with own base64url + signing-input formula, decode and verify with the library, negative verification matrix",
+    level_text="Generated legal header sets x payload classes x b64 x detached x charset x 1-4 recipients go through the three encoders; every produced token is decoded by the library's decoder and compared (claims, both headers, signing input, signature) with what was given, against the harness's own formula, and verified with the real verifiers. create_jws on CoreDocument/IotaDocument is driven over every JwsSignatureOptions field; each token must verify for its method (every containing scope, kid or method id) and must fail for every other method, wrong/absent nonce and every excluding scope.",
+    min={"quick": {"produced": 4000, "produced:compact": 800, "produced:flattened": 800, "produced:general": 800, "produced:create_jws": 500,
+                   "verified": 5000, "negative_verifications": 5000, "nontrivial": 400},
+         "thorough": {"produced": 100000, "verified": 100000, "negative_verifications": 100000, "nontrivial": 1000}},
+    thorough=[{"flavour": "checked", "shards": 16, "timeout": 3000},
+              {"flavour": "asan", "shards": 8, "timeout": 3000, "args": {"scale": 50}}],
+    assumptions=["an encoder refusing an input is counted, not a violation (the statement is about tokens that were produced)",
+                 "detached payloads are handed to the decoder in the form they were signed (base64url text when b64 is true)",
+                 "custom header parameter names are non-registered names"],
+)
+
+CHECKS["C18"] = cfg(
+    "C18",
+    technique="runtime monitoring: invariant monitors over every JWK observed (exhaustive private-member subsets x routes, random identity groups, odd JSON, setter histories, key generation) with own RFC 7638 reference",
+    level_text="Every JWK built through constructors, setters, JSON (member permutations, family mismatches) and key generation is run through monitors: kty equals the family of the params carried, is_public iff no private member, to_public leaks nothing / keeps public members / is idempotent, thumbprint equals the harness's RFC 7638 computation and is invariant under optional members, order and private parts; verification-method constructors refuse private JWKs; generated output and documents are deep-scanned for private members.",
+    min={"quick": {"jwks_observed": 50000, "wellformed_built": 20000, "oracle_thumbprint_ref": 50000, "oracle_to_public": 40000,
+                   "vm_private_refused": 100000, "vm_public_accepted": 40000, "odd_json_accepted": 200, "gen_outputs": 100,
+                   "document_jwks_scanned": 150, "nontrivial": 2000},
+         "thorough": {"jwks_observed": 2000000, "wellformed_built": 800000, "oracle_to_public": 1700000, "nontrivial": 20000}},
+    assumptions=["set_params_unchecked / params_mut / data_mut are explicitly unchecked and not judged",
+                 "thumbprint escaping of values containing quotes/backslashes is observed, not judged"],
+)
+
 # Default entries for properties whose monitors are being built (not claimed in MANIFEST.json until enabled).
 for _pid in ["C%02d" % i for i in range(1, 21)]:
     if _pid not in CHECKS:
